@@ -24,6 +24,7 @@ type Profile struct {
 	PkceFlags                                                             bool // randomise enforcement flags
 	Hybrid, Implicit                                                      int  // percent of authorizations using "code token" / "token"
 	RawStore                                                              int  // percent of histories on the raw MemoryStore (monitors only)
+	JWT                                                                   int  // percent of histories with JWT access tokens (monitors only)
 	Smuggle                                                               int
 }
 
@@ -114,6 +115,7 @@ func newGen(r *RNG, p *Profile) *gen {
 	}
 	c.ParEnforced = r.Chance(p.ParEnforce)
 	c.RawStore = r.Chance(p.RawStore)
+	c.JWTAccess = r.Chance(p.JWT)
 	n := 2 + r.Intn(3)
 	for i := 0; i < n; i++ {
 		cl := HClient{Public: r.Chance(30)}
